@@ -225,6 +225,17 @@ def check_C03(history):
             key = (att["cls"], att["scope"])
             chk = first_check.get(key)
             if chk is not None and chk["answer"] and chk["seq"] < att["start_seq"]:
+                narrower = [o for o in attempts if o["cls"] == att["cls"] and o["start_seq"] < att["start_seq"]
+                            and o["scope"] != att["scope"]]
+                if att["scope"] == ("global",) and narrower:
+                    # known defect of mixed worker kinds under a narrowed pool_scope: this worker's own rule says it
+                    # shares with everybody, the other worker's rule says it does not; the other scope's try is
+                    # counted as a try of this scope and a "retry" is run although the states were found
+                    out.append(V("C03", "present-but-executed/asymmetric-scopes",
+                                 f"{att['label']} executed although its states were all present when first examined: the try of a worker "
+                                 f"of another (narrower) reuse scope was counted as its own",
+                                 cls=att["cls"], worker=att["worker"], other=narrower[0]["worker"], other_scope=narrower[0]["scope"]))
+                    continue
                 out.append(V("C03", "present-but-executed",
                              f"{att['label']} executed although its states were all present when first examined",
                              cls=att["cls"], worker=att["worker"], check_seq=chk["seq"], start_seq=att["start_seq"]))
